@@ -81,6 +81,7 @@ func runC01(cfg *Config) *Report {
 		switch {
 		case kind < 5: // unify + EqualO, with the direct oracle
 			desc = fmt.Sprintf("unify u=%s v=%s s=%s counter=%d", showTerm(u), showTerm(v), sBefore, ctr)
+			begin(i, desc)
 			s2, ok := micro.VerifUnify(u, v, s)
 			states, fin := streamStates(micro.EqualO(u, v)(&micro.State{Substitutions: s, Counter: ctr}), 10)
 			obs = fmt.Sprintf("ok=%v s'=%s; EqualO yields %d state(s)", ok, showSubst(s2), len(states))
@@ -119,6 +120,12 @@ func runC01(cfg *Config) *Report {
 				}
 				if !pre {
 					rep.violate(i, "earlier-binding-lost", desc, obs)
+				}
+				// the result is acyclic (the harness's own check: walkStar would not return on a cycle)
+				if substCyclic(s2) {
+					rep.violate(i, "cyclic-result", desc, obs)
+					rep.hist("unify ok=true (cyclic)")
+					break
 				}
 				// both sides resolve to the identical term
 				wu, wv := micro.VerifWalkStar(u, s2), micro.VerifWalkStar(v, s2)
@@ -161,6 +168,7 @@ func runC01(cfg *Config) *Report {
 			}
 		case kind == 5:
 			desc = fmt.Sprintf("walk x=?%d s=%s", x, sBefore)
+			begin(i, desc)
 			w := micro.VerifWalk(&ast.Variable{Index: x}, s)
 			obs = showTerm(w)
 			cf.add(fmt.Sprintf("CWalk %s %s %s", coqN(x), encSubst(s), encTerm(w)))
@@ -170,6 +178,7 @@ func runC01(cfg *Config) *Report {
 			}
 		case kind == 6 || kind == 7:
 			desc = fmt.Sprintf("occurs x=?%d v=%s s=%s", x, showTerm(u), sBefore)
+			begin(i, desc)
 			b := micro.VerifOccurs(&ast.Variable{Index: x}, u, s)
 			obs = fmt.Sprint(b)
 			cf.add(fmt.Sprintf("COccurs %s %s %s %s", coqN(x), encTerm(u), encSubst(s), coqBool(b)))
@@ -182,6 +191,7 @@ func runC01(cfg *Config) *Report {
 			}
 		case kind == 8:
 			desc = fmt.Sprintf("exts x=?%d v=%s s=%s", x, showTerm(u), sBefore)
+			begin(i, desc)
 			s2, ok := micro.VerifExts(&ast.Variable{Index: x}, u, s)
 			obs = fmt.Sprintf("ok=%v s'=%s", ok, showSubst(s2))
 			cf.add(fmt.Sprintf("CExts %s %s %s %s %s", coqN(x), encTerm(u), encSubst(s), coqBool(ok), encSubst(s2)))
@@ -194,6 +204,7 @@ func runC01(cfg *Config) *Report {
 			}
 		default:
 			desc = fmt.Sprintf("walkStar t=%s s=%s", showTerm(u), sBefore)
+			begin(i, desc)
 			w := micro.VerifWalkStar(u, s)
 			obs = showTerm(w)
 			cf.add(fmt.Sprintf("CWalkStar %s %s %s", encTerm(u), encSubst(s), encTerm(w)))
